@@ -314,7 +314,7 @@ def evalLine (line : String) : String :=
           else showTextR (pure (alignCenter cxA t w))
         | _, _ => "X~parse"
       | "withdefaults", [o] => match parseOpts o with
-        | some o => showOpts (o.withDefaults cxA)
+        | some o => showOpts (o.withDefaults cxA) ++ ";" ++ showOpts ((o.withDefaults cxA).withDefaults cxA)
         | none => "X~parse"
       | _, _ => "X~parse"
     id ++ "|" ++ res
